@@ -120,6 +120,9 @@ def join(rng, blines):
     return b"".join(l + rng.choice(seps) for l in blines)
 
 
+VALGRIND = ("valgrind", "-q", "--error-exitcode=96", "--num-callers=14", "--track-origins=yes")
+
+
 def _stream_worker(a):
     b, seed, kind = a["build"], a["seed"], a["kind"]
     rng = random.Random(seed)
@@ -178,6 +181,19 @@ def _stream_worker(a):
             cut = data.find(b"\n", int(len(data) * rng.choice([0.5, 0.7, 0.9]))) + 1 or len(data)
             out, r = daemon.run_batch(b, conf, data, leaks=True, timeout=WD, pause_at=cut, pause_s=1.6)
             results.append(("timer", data, r, None))
+            if r.hang:
+                break
+    elif kind == "memcheck":
+        # the unsanitized build under valgrind memcheck: values used before they are set, reads of freed or foreign memory that the
+        # red zones of the sanitized build do not border
+        bp = a["plain"]
+        conf = cfg.text(bp["moddir"])
+        for rep in range(a["reps"]):
+            bl = mutate(rng, lines, ids) if rng.random() < 0.7 else [l.encode("latin-1") for l in lines]
+            bl = [x for x in bl if len(x) < 2000] + [b"-1 ? stats", b"-1 ? config", b"-1 ? stats2"]
+            data = join(rng, bl)
+            out, r = daemon.run_batch(bp, conf, data, leaks=False, timeout=3 * WD, wrapper=VALGRIND)
+            results.append(("memcheck", data, r, None))
             if r.hang:
                 break
     elif kind == "aged":
@@ -320,9 +336,11 @@ def run(chk, tier, scale=1.0):
     san = [subprocess.run(["gcc", "-print-file-name=" + n], stdout=subprocess.PIPE, text=True).stdout.strip() for n in ("libasan.so", "libubsan.so")]
     preload = " ".join(san + [shim])
 
+    bplain = buildmod.build_daemon(buildmod.fresh_dir("c08p-" + tier), "plain")
+
     def add(kind, n, reps):
         for i in range(n):
-            jobs.append(dict(build=b, seed=seedbase + len(jobs), kind=kind, reps=reps, shim=preload))
+            jobs.append(dict(build=b, seed=seedbase + len(jobs), kind=kind, reps=reps, shim=preload, plain=bplain))
     add("hostile", int((160 if q else 4000) * scale), 5)
     add("prefix", int((8 if q else 10) * scale) or 1, 60 if q else 10 ** 9)
     add("chunk", int((40 if q else 500) * scale), 6 if q else 20)
@@ -330,6 +348,7 @@ def run(chk, tier, scale=1.0):
     add("timer", int((16 if q else 160) * scale) or 1, 2)
     add("reload", int((24 if q else 400) * scale) or 1, 2)
     add("aged", int((3 if q else 32) * scale) or 1, 1)
+    add("memcheck", int((16 if q else 400) * scale) or 1, 2)
     jobs.sort(key=lambda j: j["kind"] != "aged")      # the slow ones first
     res = vcommon.pmap(_stream_worker, jobs, chunksize=1)
     seen_crash = {}
@@ -367,6 +386,10 @@ def run(chk, tier, scale=1.0):
             chk.violation(Violation("C08", "hang", "hang", "daemon does not terminate at end of input (%s stream, %d bytes; repeated with a %.0f s watchdog); tail of input: %r" % (
                 p["tag"], len(data), 3 * WD, data[-120:]), {"config": p["conf"], "input": data.decode("latin-1"), "tag": p["tag"]}))
             continue
+        if p["tag"] == "memcheck":
+            chk.violation(Violation("C08", "crash", "%s|%s" % ck, "valgrind memcheck on the unsanitized build: %s in %s\n%s" % (ck[0], ck[1], p["stderr"]),
+                                    {"config": p["conf"], "input": data.decode("latin-1"), "tag": p["tag"], "memcheck": True}))
+            continue
         if p.get("reload"):
             chk.violation(Violation("C08", "crash", "%s|%s" % ck, "daemon failed (%s in %s) on a %s stream: started with the first file, SIGUSR1 with the second after %d bytes of input\n%s" % (
                 ck[0], ck[1], p["tag"], p["reload"][1], p["stderr"]),
@@ -382,7 +405,7 @@ def run(chk, tier, scale=1.0):
                 "command without its argument), 0..40 arguments, empty / whitespace / colon-only lines, CR LF mixtures, NUL and high bytes, 600 B..70 KB lines, ids at and "
                 "beyond the limits of int and long, every command with id -1 and with live ids, replies with every malformed tag, random bytes; (2) peer death: %s prefixes of "
                 "streams; (3) the same stream under read() segmentations of at most 1,2,3,7,16,100,1000 bytes chosen by the guarded chunk hook must give identical stdout; "
-                "every third segmentation run additionally has 30-60 %% of the read()/readv() calls on fd 0 fail with EINTR / EAGAIN (LD_PRELOAD shim); (3d) streams interrupted for 11.3 s so that the statistics asked for afterwards report requests more than ten seconds old; (3c) streams interrupted by a SIGUSR1 whose file lists the same modules in another order; (3b) streams interrupted for 1.6 s under a 1 s request timeout so that the real timers of pending, refused and abandoned requests expire; (4) a good stream with junk lines (unknown ids, unknown command words, malformed replies) mixed in must give identical stdout; oracle for all: exit 0 at end "
+                "every third segmentation run additionally has 30-60 %% of the read()/readv() calls on fd 0 fail with EINTR / EAGAIN (LD_PRELOAD shim); (5) hostile streams fed to the UNSANITIZED build under valgrind memcheck (uninitialised values, invalid reads and writes); (3d) streams interrupted for 11.3 s so that the statistics asked for afterwards report requests more than ten seconds old; (3c) streams interrupted by a SIGUSR1 whose file lists the same modules in another order; (3b) streams interrupted for 1.6 s under a 1 s request timeout so that the real timers of pending, refused and abandoned requests expire; (4) a good stream with junk lines (unknown ids, unknown command words, malformed replies) mixed in must give identical stdout; oracle for all: exit 0 at end "
                 "of input, no ASan / UBSan / LeakSanitizer report, no hang; distinct = hash of input; non-trivial = non-empty input" % ("60 sampled per stream" if q else "all"))
     chk.require("runs_hostile", 500 * min(1.0, scale))
     chk.require("runs_that_reported_old_requests", 1)
@@ -394,7 +417,11 @@ def run(chk, tier, scale=1.0):
 def replay(chk, rep):
     b = prun.build_daemon("c08-replay")
     w = rep["witness"]
-    if w.get("config_after_reload"):
+    if w.get("memcheck"):
+        import build as buildmod
+        bp = buildmod.build_daemon(buildmod.fresh_dir("c08p-replay"), "plain")
+        out, r = daemon.run_batch(bp, w["config"].replace("c08p-quick", "c08p-replay").replace("c08p-thorough", "c08p-replay"), w["input"].encode("latin-1"), leaks=False, wrapper=VALGRIND)
+    elif w.get("config_after_reload"):
         import signal
 
         def do_reload(d, text=w["config_after_reload"]):
